@@ -386,7 +386,10 @@ def np_full(eng, args, kwargs, st, node):
 def np_ones(eng, args, kwargs, st, node):
     n = z3.simplify(eng.num(args[0], st, node)[0])
     if not z3.is_int_value(n):
-        raise OutOfSubset('np.ones(symbolic)')
+        # 1-D array of symbolic length: a list of reals, all one
+        eng.safety(st, n >= 0, 'ones-count', node)
+        yield new_list(st, Ty('list', [REAL]), z3.K(z3.IntSort(), z3.RealVal(1)), n), st
+        return
     yield mkvec([mk_real(1)] * n.as_long()), st
 
 
